@@ -900,6 +900,17 @@ func (run *simRun) heal() {
 		}
 	}
 	for _, n := range run.nodes {
+		if n.inc != nil && n.inc.exited && !n.inc.dead && n.inc.serveErr == ErrNodeRemoved {
+			// a node that shut itself down as removed, but is a member again in the newest
+			// committed configuration (removed and added again while it lagged): the operator who
+			// added it again starts it again
+			if c := run.led.configAtIndex(run.led.upto); c != nil {
+				if _, member := c.Nodes[n.id]; member {
+					run.reach("restart_of_readded_node")
+					n.inc = nil
+				}
+			}
+		}
 		if n.inc != nil {
 			n.inc.nc.Stalled = false
 			n.inc.crashAtIO = 0
